@@ -1358,6 +1358,9 @@ func (c *Ctx) payloadAndCursorDiscipline(r *mapRoles, ruleRead, ruleCursor strin
 							isLive, decided = liveNode(fn, ir.Facts(in.Block()), base, 0), true
 						}
 						nReads++
+						if ruleRead == "" {
+							continue // decided under the rule id of the caller that asked for it (C11.M6), not twice
+						}
 						c.Decide(ruleRead, fn, "payload read from a live node", in, isLive,
 							"an entry's key/value is read from a node that was obtained neither through the index nor through the skip-removed routine: it can be a removed entry")
 					}
